@@ -27,8 +27,10 @@ type Connection interface {
 	RemoteAddr() net.Addr
 }
 
+// Store adds conn. The table is keyed by the connection itself: the remote address is no identity - two
+// connections may come from one remote address and port (to different local addresses, or one after the other).
 func (c *Connections) Store(conn Connection) {
-	c.data.Store(conn.RemoteAddr().String(), conn)
+	c.data.Store(conn, conn)
 }
 
 func (c *Connections) length() int {
@@ -80,8 +82,7 @@ func (c *Connections) Close() {
 	}
 }
 
-// Delete removes conn. The entry of its remote address is only removed when it still is conn: a peer that has
-// connected again from the same address and port owns the entry by then.
+// Delete removes conn.
 func (c *Connections) Delete(conn Connection) {
-	c.data.CompareAndDelete(conn.RemoteAddr().String(), conn)
+	c.data.Delete(conn)
 }
